@@ -179,7 +179,6 @@ Theorem c40_finish_proposal : forall st e fail fin,
   bytes_eqb (e_etype fin) EventTypeStreamFinish = true ->
   slot_local (n_local st) (hash_slot_of st (e_channel fin) + 1) = true ->
   (nil_b (openStatesForFinish (n_cache st) fin) && negb (p_hassnap (e_payload fin))) = false ->
-  existsb (fun s => merge_panics (e_payload fin) (st_snap s)) (openStatesForFinish (n_cache st) fin) = false ->
   exists rs, ao_proposals (fst (appendMessageEventLocal st e fail))
              = [with_results (map (finishFlushMessageEvent fin) (openStatesForFinish (n_cache st) fin) ++ [fin]) rs].
 Proof. exact finish_proposal. Qed.
@@ -357,16 +356,20 @@ Example c40_finish_snapshot_only_drops_it :
   /\ map (fun x => (st_key (snd x), s_raw (st_snap (snd x)))) (db_states (n_db st)) = [(EventKeyFinish, [])].
 Proof. vm_compute. split; reflexivity. Qed.
 
-(* KNOWN FINDING C40-K2 (monitor code 3): a terminal event whose payload is the JSON literal
-   null, on a lane with cached deltas, panics in mergeMessageEventTerminalPayload
-   (assignment to entry in nil map) *)
+(* FIXED (a05aa1e4b; was finding C40-K2): a terminal event whose payload is the JSON literal
+   null, on a lane with cached deltas, used to panic in mergeMessageEventTerminalPayload
+   (assignment to entry in nil map).  It now merges like the empty object: the close succeeds
+   and the lane is closed durably WITH the cached snapshot. *)
 Definition w_k2 : list NodeOp := [(NEv (mkEvent (hx "6731") (2)%Z (hx "6d31") (hx "6531") (hx "6d61696e") (hx "73747265616d2e64656c7461") (hx "7075626c6963") (10)%Z (mkPayload (hx "7b226b696e64223a2274657874222c2264656c7461223a226162227d") (Some (hx "6162")) (Some (hx "")) (hx "7b226b696e64223a2274657874222c2264656c7461223a226162227d") true None (hx "") 0 (hx "") true false) (11)%Z) false);
    (NEv (mkEvent (hx "6731") (2)%Z (hx "6d31") (hx "6331") (hx "6d61696e") (hx "73747265616d2e636c6f7365") (hx "7075626c6963") (10)%Z (mkPayload (hx "6e756c6c") None None (hx "6e756c6c") true None (hx "") 0 (hx "") true false) (11)%Z) false)].
-Theorem c40_terminal_null_payload_panics :
-  exists ops, C40_monitor (run_w ops) = 3
-              /\ map (fun x => no_err (snd x)) (node_trace ks1 (node_init 0 chan1 2) ops) = [ENone; EPanic].
-Proof. exists w_k2. vm_compute. split; reflexivity. Qed.
-Print Assumptions c40_terminal_null_payload_panics.
+Theorem c40_terminal_null_payload_merges :
+  let st := fold_left (fun st op => snd (node_step st op)) w_k2 (node_init 0 chan1 2) in
+  C40_monitor (run_w w_k2) = 0
+  /\ map (fun x => no_err (snd x)) (node_trace ks1 (node_init 0 chan1 2) w_k2) = [ENone; ENone]
+  /\ option_map (fun s => (st_status s, s_raw (st_snap s))) (get_state (n_db st) 1 (hx "6731") 2%Z (hx "6d31") (hx "6d61696e"))
+     = Some (EventStatusClosed, marshal_text (hx "6162")).
+Proof. vm_compute. repeat split; reflexivity. Qed.
+Print Assumptions c40_terminal_null_payload_merges.
 
 (* non-vacuity of the replay theorems: an applied close replayed returns the same result *)
 Example c40_example_replay :
